@@ -7,6 +7,7 @@ import Gocc.Spec.Pos
 import Gocc.Spec.Cfg
 import Gocc.Model.Validate
 import Gocc.Proofs.Validate
+import Gocc.Gen.Frontend
 /- Grammar-level ops of the model driver: decode a grammar line, run the generator models,
    print tables, scan and parse with them. -/
 namespace Gocc.Driver
@@ -382,6 +383,31 @@ def opValidate (a : Art) : String :=
     s!"safe={if safe G r.tables c && safeEnds r.tables c then 1 else 0} recover={if anyRec then 1 else 0}"
   | some (.error _) => "panic"
   | none => "nosyntax"
+
+/-- `lritems id`: item sets and transitions of the model's canonical collection (certificate source) -/
+def opLRItems (a : Art) : String :=
+  match a.lr with
+  | some (.ok r) =>
+    let T := r.tables
+    let tnum (s : String) : String :=
+      match T.nts.idxOf? s with
+      | some k => s!"N{k}"
+      | none => s!"T{(T.terminals.idxOf? s).getD 0}"
+    " ; ".intercalate (r.states.toList.map fun st =>
+      " ".intercalate (st.items.map fun i => s!"{i.p}.{i.d}.{(T.terminals.idxOf? i.la).getD 0}") ++ " / " ++
+      " ".intercalate (st.trans.map fun (x, n) => s!"{tnum x}>{n}"))
+  | _ => "panic"
+
+/-- `feparse t0 t1 ...` (front-end token types): the Parse model on the shipped front-end tables -/
+def opFeParse (args : List String) : Option String := do
+  let v ← nats args
+  let w := v.map (· + 1)
+  let cfg : PCfg := { T := Gocc.Gen.feT, errTerm := (Gocc.Gen.feTerminals.idxOf? "error").getD 0, failAt := 0 }
+  let (o, ps) := parse cfg w (20000 + 200 * w.length) default
+  match o with
+  | .accept _ => pure s!"accept scans={ps.ntok}"
+  | .synErr .. => pure s!"synerr scans={ps.ntok}"
+  | _ => pure o.show
 
 def opTerminals (a : Art) : String :=
   " ".intercalate (a.terminals.map fun s => "x" ++ String.join (s.toUTF8.toList.map fun b =>
